@@ -131,6 +131,8 @@ class MiniEval:
                     self._block(s.body, env)
                 except _Break:
                     break
+                except _Continue:
+                    continue
             return
         if isinstance(s, ast.For) and not s.orelse:
             seq = self._iterable(s.iter, env)
@@ -159,6 +161,8 @@ class MiniEval:
                     self._block(s.body, env)
                 except _Break:
                     break
+                except _Continue:
+                    continue
             return
         if isinstance(s, ast.Break):
             raise _Break()
